@@ -24,33 +24,29 @@ Definition spec_shape (sp : shspec) : shape :=
 (* what the user passes as `init=` / as an element of a memory's init list *)
 Inductive initv :=
 | INone                              (* None: "not given" *)
-| IInt (v : Z)                       (* an int (bool, IntEnum / IntFlag members are ints) *)
-| IEnum (ms : list Z) (v : Z)        (* a member (value v) of a plain enum.Enum class with integer members ms *)
+| IInt (v : Z)                       (* an int or a bool *)
+| IEnum (ms : list Z) (v : Z)        (* a member (value v) of an enum.Enum / IntEnum class with integer members ms *)
 | IExpr (e : cexpr).                 (* a constant-castable Value: Const / Cat / Slice tree (well-formed) *)
 
-(* _get_init_value(init, shape) for a shape that is not a ShapeCastable.
-   The range test is Python's `orig_init not in orig_shape` on the ORIGINAL object: an int is tested arithmetically; an Enum
-   member that is not an int equals no element (SyntaxError even when its value is an element); a Value compares with `==`,
-   which builds an Operator whose truth value is a TypeError (even when its value is an element). *)
+(* Const.cast(init).value: the integer the initialiser stands for (None counts as 0) *)
+Definition init_const_value (i : initv) : Z :=
+  match i with
+  | INone => 0
+  | IInt v => v
+  | IEnum ms v => const_norm (cast_enum ms) v            (* Const(member.value, Shape.cast(class)) *)
+  | IExpr e => fst (const_cast e)
+  end.
+
+(* _get_init_value(init, shape) for a shape that is not a ShapeCastable: init = Const.cast(init); on a range shape an
+   initialiser that was given (not None) must have its VALUE in the range (`init.value not in orig_shape`: SyntaxError);
+   the result is Const(init.value, shape).value *)
 Definition get_init_value (sp : shspec) (i : initv) : res Z :=
   let s := spec_shape sp in
-  match i with
-  | INone => Ok (const_norm s 0)
-  | IInt v =>
-      match sp with
-      | SRange a b st => if range_mem a b st v then Ok (const_norm s v) else Err 4
-      | SShape _ => Ok (const_norm s v)
-      end
-  | IEnum ms v =>
-      match sp with
-      | SRange _ _ _ => Err 4
-      | SShape _ => Ok (const_norm s (const_norm (cast_enum ms) v))
-      end
-  | IExpr e =>
-      match sp with
-      | SRange _ _ _ => Err 1
-      | SShape _ => Ok (const_norm s (fst (const_cast e)))
-      end
+  let v := init_const_value i in
+  match sp, i with
+  | SRange a b st, INone => Ok (const_norm s 0)
+  | SRange a b st, _ => if range_mem a b st v then Ok (const_norm s v) else Err 4
+  | SShape _, _ => Ok (const_norm s v)
   end.
 
 (* MemoryData.Init(elems, shape=, depth=): more elements than rows is a ValueError; the elements are converted in order
@@ -73,10 +69,9 @@ Definition mem_init (sp : shspec) (depth : Z) (elems : list initv) : res (list Z
        end.
 
 (* ---- enumeration classes ---- *)
-(* Shape._cast_plain_enum iterates `for member in cls`: aliases are skipped.  For enum.Enum / IntEnum an alias has the
-   value of an earlier member (no effect on the result); for enum.Flag / IntFlag (CPython >= 3.11) every member that is not a
-   single bit — multi-bit masks, 0 — is an alias and is NOT iterated. *)
-Definition single_bit (v : Z) : bool := (0 <? v) && (Z.land v (v - 1) =? 0).
-Definition cast_flag (ms : list Z) : shape := cast_enum (filter single_bit ms).
+(* Shape._cast_plain_enum iterates `cls.__members__.values()`: EVERY declared member counts, aliases included (an alias of
+   an Enum / IntEnum has the value of an earlier member; for Flag / IntFlag the multi-bit masks and 0 are aliases too).  The
+   model of all four kinds of class is therefore Shape.cast_enum over the declared member values. *)
+Definition cast_flag (ms : list Z) : shape := cast_enum ms.
 (* the same loop over members given by their constant shapes (a member whose value is a Const keeps the Const's shape) *)
 Definition cast_enum_shapes (l : list shape) : shape := fold_left enum_step l (Sh 0 false).
